@@ -45,11 +45,15 @@ Definition W_F17 := 17.       (* handleReturn: clearCapTable(nil) *)
 Definition W_F20 := 20.       (* importClient.Shutdown: ent == nil, ent.generation *)
 Definition W_F21 := 21.       (* recvPayload releases an import client while holding c.mu *)
 Definition W_F22 := 22.       (* embargo.lift: ClientPromise.Fulfill with a released client *)
+Definition W_F25 := 25.       (* a Call / Return whose struct pointer is null: call.Message() is nil *)
+Definition W_F26 := 26.       (* a Call on an export that is an embargoed capability: embargo.Recv blocks the
+                                 receive loop, the only goroutine that can lift the embargo (NOT repaired) *)
+Definition W_F24 := 24.       (* handleCall: a Call whose promisedAnswer target is the call itself: nil pcall *)
 
 (* the repairs made in /repo (one `fix:` commit each); false = behaviour before the repair *)
 Record cfg := mkCfg { fx14 : bool; fx15 : bool; fx16 : bool; fx17 : bool; fx19 : bool;
-                      fx20 : bool; fx21 : bool; fx22 : bool }.
-Definition cfg_fixed := mkCfg true true true true true true true true.
+                      fx20 : bool; fx21 : bool; fx22 : bool; fx23 : bool; fx24 : bool; fx25 : bool }.
+Definition cfg_fixed := mkCfg true true true true true true true true true true true.
 
 (* ------------------------------------------------------------------ wire-level values *)
 (* capability descriptors (rpc.capnp CapDescriptor), projected *)
@@ -115,6 +119,8 @@ Inductive event :=
 | MAbort
 | MUnknown                    (* resolve, provide, accept, join, obsolete*, unknown Which *)
 | MGarbage                    (* recv.Call()/Return()/... fails: reported, skipped *)
+| MNullCall                   (* Message.call / Message.return is a null pointer: the accessors *)
+| MNullReturn                 (*   return the zero struct without error *)
 | ABootstrap
 | ACall (h : Z) (caps : list acap) (tag : Z)
 | APipe (q : Z) (x : list Z) (caps : list acap) (tag : Z)
@@ -583,8 +589,8 @@ Definition reject (c : cfg) (id : Z) (a : answer) (s : state) : hres :=
   Ok (s2, o1 ++ o2, ab).
 
 (* Client.RecvCall on the capability a call is addressed to *)
-Inductive dtgt := DLocal (j : Z) | DReject.
-Definition cap_dtgt (x : cap) : dtgt := match x with CLocal j => DLocal j | _ => DReject end.
+Inductive dtgt := DLocal (j : Z) | DReject | DBlock.
+Definition cap_dtgt (x : cap) : dtgt := match x with CLocal j => DLocal j | CEmb _ => DBlock | _ => DReject end.
 Definition deliver (c : cfg) (id : Z) (a : answer) (t : dtgt) (s : state) : hres :=
   match t with
   | DLocal j =>
@@ -594,6 +600,7 @@ Definition deliver (c : cfg) (id : Z) (a : answer) (t : dtgt) (s : state) : hres
       Ok (set_ndeliv (s_ndeliv s + 1) (set_ans (aput id a1 (s_ans s0)) s0), [LDeliver j (a_tag a) (s_ndeliv s)], false)
     else reject c id a s
   | DReject => reject c id a s
+  | DBlock => Stuck W_F26
   end.
 (* the capability a promisedAnswer target designates once the answer has results *)
 Definition pipeline_tgt (k : content) (rct : list (option Z)) (x : list Z) : dtgt :=
@@ -624,9 +631,25 @@ Fixpoint reject_all (c : cfg) (ids : list Z) (s : state) : hres :=
     | None => reject_all c r s
     end
   end.
-(* answerQueue.fulfill: the calls queued directly on r are delivered in order; what was queued
-   behind a call that is rejected is rejected with it *)
-Fixpoint drain (c : cfg) (r : Z) (k : content) (rct : list (option Z)) (ids : list Z) (s : state) : hres :=
+(* answerQueue.fulfill of answer r: the queue (everything queued behind r, transitively, in
+   arrival order) is drained in order.  A call queued on r itself is delivered to the capability
+   its transform designates in the results; a call queued behind an earlier entry follows that
+   entry: rejected with it, or (the entry now runs on a server) it waits in that call's queue.
+   Before fix F23 queueCaller numbered the entries one too low: a call queued behind entry i was
+   resolved against entry i-1, the first one against the results of r itself. *)
+Fixpoint index_of (x : Z) (l : list Z) (i : nat) : option nat :=
+  match l with
+  | [] => None
+  | y :: r => if y =? x then Some i else index_of x r (S i)
+  end.
+Definition eff_parent (c : cfg) (r : Z) (lst : list Z) (p : Z) : Z :=
+  if fx23 c || (p =? r) then p
+  else match index_of p lst 0 with
+       | Some O => r
+       | Some (S i) => nth i lst p
+       | None => p
+       end.
+Fixpoint drain (c : cfg) (r : Z) (k : content) (rct : list (option Z)) (lst ids : list Z) (s : state) : hres :=
   match ids with
   | [] => Ok (s, [], false)
   | id :: rest =>
@@ -634,19 +657,22 @@ Fixpoint drain (c : cfg) (r : Z) (k : content) (rct : list (option Z)) (ids : li
       match aget id (s_ans s) with
       | Some a =>
         match a_st a with
-        | AQueued on x =>
-          if on =? r then
-            match pipeline_tgt k rct x with
-            | DLocal j => if a_mok a then deliver c id a (DLocal j) s
-                          else reject_all c (id :: queued_under (s_ans s) (s_queue s) [id]) s
-            | DReject => reject_all c (id :: queued_under (s_ans s) (s_queue s) [id]) s
-            end
-          else Ok (s, [], false)
+        | AQueued p x =>
+          let ep := eff_parent c r lst p in
+          if ep =? r then deliver c id a (pipeline_tgt k rct x) s
+          else match aget ep (s_ans s) with
+               | Some b =>
+                 if a_ready b then
+                   if a_err b then reject c id a s
+                   else deliver c id a (pipeline_tgt (a_content b) (a_rct b) x) s
+                 else Ok (set_ans (aput id (set_a_st (AQueued ep x) a) (s_ans s)) s, [], false)
+               | None => reject c id a s
+               end
         | _ => Ok (s, [], false)
         end
       | None => Ok (s, [], false)
       end;
-    do '(s2, o2, b2) <- drain c r k rct rest s1;
+    do '(s2, o2, b2) <- drain c r k rct lst rest s1;
     Ok (s2, o1 ++ o2, b1 || b2)
   end.
 
@@ -687,7 +713,10 @@ Definition do_shutdown (c : cfg) (abort : bool) (s : state) : res (state * list 
   let s0 := set_shut true s in
   (* tasks.Wait(): every running / queued call returns (cancelled); its arguments are released *)
   do '(s1, o1) <- release_all_args c (s_ans s0) s0;
-  let oq := fail_questions (s_qs s1) 0 in
+  (* ... and so do the calls that reached a local server directly *)
+  let ol := map (fun p => LAppRes (snd p) 1) (s_lcalls s1) in
+  let s1 := set_lcalls [] s1 in
+  let oq := ol ++ fail_questions (s_qs s1) 0 in
   let answers := s_ans s1 in
   let exports := s_exp s1 in
   let s2 := set_handles (map fail_handle (s_handles s1))
@@ -770,6 +799,9 @@ Definition handle_call (c : cfg) (id : Z) (tg : target) (params : option payload
         | Some (x, _) => deliver c id a (cap_dtgt x) s1
         end
       | PAns t x =>
+        (* c.answers[id] = ans comes before the lookup: a call may name itself *)
+        if (t =? id) && negb (fx24 c) then Panic W_F24 else
+        if t =? id then unknown else
         match aget t (s_ans s1) with
         | None => unknown
         | Some ta =>
@@ -1055,12 +1087,6 @@ Fixpoint addrefs_local (l : list (option Z)) (s : state) : state :=
   | Some j :: r => addrefs_local r (lref 1 j s)
   | None :: r => addrefs_local r s
   end.
-Definition direct_queued (ans : list (Z * answer)) (q : list Z) (r : Z) : list Z :=
-  filter (fun id => match aget id ans with
-                    | Some a => match a_st a with AQueued on _ => on =? r | _ => false end
-                    | None => false
-                    end) q.
-
 Definition app_return (c : cfg) (k : Z) (r : appret) (s : state) : hres :=
   match find_running k (s_ans s) with
   | None =>
@@ -1078,13 +1104,15 @@ Definition app_return (c : cfg) (k : Z) (r : appret) (s : state) : hres :=
       do '(s3, o3, b3) <- send_exception c id a1 s2;
       Ok (s3, o1 ++ o2 ++ o3, b2 || b3)
     | AREmpty =>
-      do '(s2, o2, b2) <- drain c id KNull [] (direct_queued (s_ans s1) (s_queue s1) id) s1;
+      let lst := queued_under (s_ans s1) (s_queue s1) [id] in
+      do '(s2, o2, b2) <- drain c id KNull [] lst lst s1;
       do '(s3, o3, b3) <- send_return c id a1 KNull [] s2;
       Ok (s3, o1 ++ o2 ++ o3, b2 || b3)
     | ARResults fs =>
       let '(kc, rct) := results_of fs in
       let s1' := addrefs_local rct s1 in
-      do '(s2, o2, b2) <- drain c id kc rct (direct_queued (s_ans s1') (s_queue s1') id) s1';
+      let lst := queued_under (s_ans s1') (s_queue s1') [id] in
+      do '(s2, o2, b2) <- drain c id kc rct lst lst s1';
       do '(s3, o3, b3) <- send_return c id a1 kc rct s2;
       Ok (s3, o1 ++ o2 ++ o3, b2 || b3)
     end
@@ -1101,6 +1129,18 @@ Definition handler (c : cfg) (e : event) (s : state) : hres :=
   | MDisembargo tg cx => handle_disembargo c tg cx s
   | MUnimplemented => Ok (s, [], false)
   | MGarbage => Ok (s, [], false)
+  | MNullCall =>
+    (* before fix F25: question 0, target importedCap 0, no parameters; every path ends in
+       clearCapTable(call.Message()) with a nil message (at once, or when the arguments are released) *)
+    if fx25 c then Ok (s, [], false)
+    else match aget 0 (s_ans s) with Some _ => Ok (s, [], true) | None => Panic W_F25 end
+  | MNullReturn =>
+    (* before fix F25: answer id 0, results, null payload; parseReturn reads ret.Message().CapTable *)
+    if fx25 c then Ok (s, [], false)
+    else match tget 0 (s_qs s) with
+         | None => Ok (s, [], true)
+         | Some q => if q_fin q then handle_return c 0 true (RkResults None) s else Panic W_F25
+         end
   | MUnknown => Ok (s, [OUnimpl], false)
   | MAbort | AClose => Ok (s, [], false)      (* see [step] *)
   | ABootstrap => app_bootstrap c s
@@ -1116,7 +1156,7 @@ Definition handler (c : cfg) (e : event) (s : state) : hres :=
 Definition is_peer (e : event) : bool :=
   match e with
   | MBootstrap _ | MCall _ _ _ _ _ _ | MReturn _ _ _ | MFinish _ _ | MRelease _ _ | MDisembargo _ _
-  | MUnimplemented | MAbort | MUnknown | MGarbage => true
+  | MUnimplemented | MAbort | MUnknown | MGarbage | MNullCall | MNullReturn => true
   | _ => false
   end.
 
